@@ -57,11 +57,17 @@ struct Start {
     version: u8,
     listfile: bool,
     attrs: bool,
+    /// bytes in front of the archive header (an archive embedded behind other data: archive_offset > 0)
+    prefix: usize,
 }
 
 impl Start {
     fn class(&self) -> String {
-        format!("v{}|l{}|a{}", self.version, self.listfile as u8, self.attrs as u8)
+        if self.prefix > 0 {
+            format!("v{}|l{}|a{}|p{:x}", self.version, self.listfile as u8, self.attrs as u8, self.prefix)
+        } else {
+            format!("v{}|l{}|a{}", self.version, self.listfile as u8, self.attrs as u8)
+        }
     }
 }
 
@@ -106,6 +112,12 @@ fn build_start(st: &Start, path: &Path) -> Result<BTreeMap<String, Vec<u8>>, Str
         model.insert(norm(n), d);
     }
     b.build(path).map_err(|e| e.to_string())?;
+    if st.prefix > 0 {
+        let arc = std::fs::read(path).map_err(|e| e.to_string())?;
+        let mut out: Vec<u8> = (0..st.prefix).map(|i| 0x20 + (i % 89) as u8).collect();
+        out.extend_from_slice(&arc);
+        std::fs::write(path, out).map_err(|e| e.to_string())?;
+    }
     Ok(model)
 }
 
@@ -520,7 +532,7 @@ fn main() {
         for version in 1..=4u8 {
             for listfile in [true, false] {
                 for attrs in [false, true] {
-                    v.push(Start { version, listfile, attrs });
+                    v.push(Start { version, listfile, attrs, prefix: 0 });
                 }
             }
         }
@@ -545,7 +557,7 @@ fn main() {
         }
     }
     // length-2 histories: quick on V1 and V4 (listfile, no attrs); thorough on all four versions, + length 3 sampled
-    let l2_starts: Vec<Start> = if thorough { (1..=4).map(|v| Start { version: v, listfile: true, attrs: false }).chain([Start { version: 1, listfile: false, attrs: true }, Start { version: 4, listfile: true, attrs: true }]).collect() } else { vec![Start { version: 1, listfile: true, attrs: false }, Start { version: 4, listfile: true, attrs: false }] };
+    let l2_starts: Vec<Start> = if thorough { (1..=4).map(|v| Start { version: v, listfile: true, attrs: false, prefix: 0 }).chain([Start { version: 1, listfile: false, attrs: true, prefix: 0 }, Start { version: 4, listfile: true, attrs: true, prefix: 0 }]).collect() } else { vec![Start { version: 1, listfile: true, attrs: false, prefix: 0 }, Start { version: 4, listfile: true, attrs: false, prefix: 0 }] };
     for st in &l2_starts {
         for a in &alpha {
             for b in &alpha {
@@ -578,6 +590,29 @@ fn main() {
             let _ = k;
         }
     }
+    // ---- part 1b: several sessions on an archive behind a prefix: every session appends behind what earlier sessions wrote
+    for prefix in [0x200usize, 0x400, 0x1000] {
+        for version in [1u8, 2] {
+            for (hi, sizes) in [[2usize, 2, 1], [3, 2, 2], [1, 3, 3], [2, 1, 3]].iter().enumerate() {
+                for opt in [0usize, 1, 3] {
+                    let i = idx;
+                    idx += 1;
+                    if !run.want(i) {
+                        continue;
+                    }
+                    let st = Start { version, listfile: true, attrs: false, prefix };
+                    let mut ops = vec![];
+                    for (n, sz) in sizes.iter().enumerate() {
+                        ops.push(Op::Add { name: n, size: *sz, opt, replace: true });
+                        ops.push(Op::Reopen);
+                    }
+                    ops.push(Op::Add { name: 1, size: sizes[0], opt: 0, replace: true });
+                    let desc = json!({"start": st.class(), "history": ops.iter().map(|o| op_json(o, &ex_names)).collect::<Vec<_>>()});
+                    run.case(i, &format!("sessions|{}|h{hi}|{}", st.class(), OPTS[opt]), desc, |c| run_history(c, &st, &ops, &ex_names, &dir, i));
+                }
+            }
+        }
+    }
     // ---- part 2: long random histories over the full name pool (more additions than free hash slots, table growth)
     ex_names = names.clone();
     ex_names.push("seed\\enc.bin".into());
@@ -594,7 +629,15 @@ fn main() {
             continue;
         }
         let mut rng = run.rng(i, 7);
-        let st = &starts[rng.usize(starts.len())];
+        let st0 = &starts[rng.usize(starts.len())];
+        // every fourth history works on an archive that sits behind a prefix (V1/V2: the classic-table writer)
+        let st_pref;
+        let st = if k % 4 == 3 {
+            st_pref = Start { version: 1 + (k / 4 % 2) as u8, listfile: st0.listfile, attrs: st0.attrs, prefix: [0x200usize, 0x400, 0x1000][(k / 8 % 3) as usize] };
+            &st_pref
+        } else {
+            st0
+        };
         let len = if thorough { 20 + rng.usize(100) } else { 20 + rng.usize(40) };
         let nn = if k % 3 == 0 { ex_names.len() } else { 9 };
         let ops: Vec<Op> = (0..len).map(|_| random_op(&mut rng, nn)).collect();
